@@ -212,6 +212,10 @@ func intTag(i int64) string {
 		return "min64"
 	case 127, -128:
 		return "int8-limit"
+	case math.MaxInt16, math.MinInt16:
+		return "int16-limit"
+	case math.MaxInt32, math.MinInt32:
+		return "int32-limit"
 	}
 	return "small"
 }
@@ -222,6 +226,10 @@ func uintTag(u uint64) string {
 		return "max64"
 	case math.MaxUint32:
 		return "max32"
+	case math.MaxUint16:
+		return "max16"
+	case math.MaxUint8:
+		return "max8"
 	}
 	return "small"
 }
